@@ -326,6 +326,177 @@ fn run_scope(i: usize, items: &[Item]) -> Result<Value, String> {
     Ok(json!({"findings": findings, "checks": checks, "stops": stops_seen, "source": sp.source_fn}))
 }
 
+// ------------------------------------------------------------------------------------------ C19 closures
+
+fn closure_fn(mv: bool) -> String {
+    format!(
+        "#[inline(never)]\nfn clos(n: u64) -> u64 {{\n    let mut acc = n;\n    let x = n * 1000 + 101;\n    let y = n * 1000 + 102;\n    let k = {}|p: u64| -> u64 {{\n        let x2 = p.wrapping_add(x);\n        let y = p * 10 + 7;\n        let r = x2.wrapping_add(y);\n        r\n    }};\n    let z = n * 1000 + 103;\n    acc = acc.wrapping_add(k(n + 5));\n    if n > 0 {{\n        acc = acc.wrapping_add(clos(n - 1));\n    }}\n    acc.wrapping_add(y).wrapping_add(z)\n}}\n",
+        if mv { "move " } else { "" }
+    )
+}
+
+/// Closures: a closure body is a frame of its own whose names (a local `y`, the parameter `p`, a
+/// captured `x`) coexist with same-named bindings of the enclosing function one frame up.
+pub fn part_c19_closures(_tier: Tier) -> Part {
+    let mut part = Part::new("scope-closures");
+    part.rule = "a recursive function (depth 3) defines a closure (once capturing by value, once by reference) that declares its own `y` while the enclosing function has `y`, `x` (captured) and a later `z`, and calls it; at every statement of the closure body, for the closure frame and the two frames above it: the closure frame must show its parameter p and its own live locals with that activation's values, never a local declared later in the body, never the enclosing function's `y`, `z` or the closure variable; `var y` must be the closure's own y once it is live; the captured `x` (by value) must read that activation's x; the enclosing frames must show their own x, y, z and n and none of the closure's locals. Non-trivial = (stop, frame) pairs checked".into();
+    let runs: Vec<(bool, Result<Value, String>)> = [true, false].par_iter().map(|mv| (*mv, run_closure(*mv))).collect();
+    for (mv, r) in runs {
+        let replay = json!({"engine":"c19-closure","move":mv});
+        match r {
+            Ok(v) => {
+                part.states += v["stops"].as_u64().unwrap_or(0);
+                part.evaluations += v["checks"].as_u64().unwrap_or(0);
+                part.distinct_nontrivial += v["checks"].as_u64().unwrap_or(0);
+                for f in v["findings"].as_array().cloned().unwrap_or_default() {
+                    part.violate(f["sig"].as_str().unwrap_or("C19:?"), f["detail"].as_str().unwrap_or(""), replay.clone());
+                }
+                part.sample(json!({"capture_by_value": mv, "function": closure_fn(mv), "stops": v["stops"], "example": v["example"]}));
+            }
+            Err(e) => {
+                part.violate("C19:machinery", e, replay);
+                part.exhaustive = false;
+            }
+        }
+    }
+    part.transitions = part.evaluations;
+    part.traces_validated = part.states;
+    part
+}
+
+pub fn run_closure(mv: bool) -> Result<Value, String> {
+    let name = format!("p_closure_{}", if mv { "move" } else { "ref" });
+    let text = closure_fn(mv);
+    let mut prog = corpus::generate_custom(&name, &text, "    a = a.wrapping_add(clos(2));");
+    let first = prog.lines.iter().find(|(_, m)| m == "custom.start").map(|(l, _)| *l).unwrap_or(1);
+    prog.lines.retain(|(_, m)| m != "custom.start");
+    let built = corpus::build(&prog, &Config::default_cfg())?;
+    let p = prepare(vec![built])?.remove(0);
+    let file = p.built.program.src_file.clone();
+    // body lines of the closure inside the fn text (1-based): 7 `let x2`, 8 `let y`, 9 `let r`
+    // (the tail expression `r` on line 10 gets no code of its own: a breakpoint there lands on
+    // the closing brace, past the end of the lexical blocks, where DWARF declares nothing live)
+    let body = [7u32, 8, 9];
+    let (call_line, rec_line) = (13u32, 15u32);
+    let mut cmds = vec![];
+    for l in body {
+        cmds.push(json!({"op":"break_line","file":file,"line":first + l - 1}));
+    }
+    cmds.push(json!({"op":"start"}));
+    for _ in 0..body.len() * 3 {
+        cmds.push(json!({"op":"values","names":["x","y","z","x2","r","p","k"],"frames":3}));
+        cmds.push(json!({"op":"continue"}));
+    }
+    let mut job = init_json(&p, false);
+    job["commands"] = json!(cmds);
+    let out = run_worker("e2e", &job, Duration::from_secs(120));
+    let WorkerOutcome::Ok(res) = out else {
+        return Err(format!("[{name}] worker failed: {out:?}"));
+    };
+    let obs = res["obs"].as_array().cloned().unwrap_or_default();
+    let val_obs: Vec<&Value> = obs.iter().filter(|o| o["cmd"]["op"] == "values").collect();
+    let mut findings = vec![];
+    let mut checks = 0u64;
+    let mut stops = 0u64;
+    let mut example = Value::Null;
+    let mut idx = 0;
+    for n in [2u64, 1, 0] {
+        for (bi, bl) in body.iter().enumerate() {
+            let Some(o) = val_obs.get(idx) else {
+                findings.push(json!({"sig":"C19:machinery:missing-stop","detail":format!("[{name}] stop #{idx} missing")}));
+                return Ok(json!({"findings": findings, "checks": checks, "stops": stops}));
+            };
+            idx += 1;
+            stops += 1;
+            let frames = o["res"]["frames"].as_array().cloned().unwrap_or_default();
+            if example.is_null() && bi == 2 {
+                example = json!({"closure_frame_locals": frames.first().map(|f| f["locals"].clone()), "closure_frame_args": frames.first().map(|f| f["args"].clone())});
+            }
+            let pv = n + 5;
+            let xv = n * 1000 + 101;
+            let x2 = pv + xv;
+            let yc = pv * 10 + 7;
+            let r = x2 + yc;
+            for (k, fr) in frames.iter().enumerate().take(3) {
+                // frame 0: closure; frame 1: clos(n) at the call line; frame 2: clos(n+1) at the recursive call
+                if k == 2 && n == 2 {
+                    break;
+                }
+                checks += 1;
+                let ctx = format!("[{name}] activation n={n}, closure body line {bl}, frame {k}\n{text}");
+                if fr["locals"].get("Err").is_some() {
+                    findings.push(json!({"sig":"C19:locals:error:closure","detail":format!("{ctx}\nread_local_variables failed: {}", fr["locals"]["Err"])}));
+                    continue;
+                }
+                let shown: Vec<(String, Option<u64>)> = fr["locals"]["Ok"].as_array().map(|a| a.iter().map(|e| (e["name"].as_str().unwrap_or("?").to_string(), scalar_u64(&e["v"]))).collect()).unwrap_or_default();
+                let args: Vec<(String, Option<u64>)> = fr["args"]["Ok"].as_array().map(|a| a.iter().map(|e| (e["name"].as_str().unwrap_or("?").to_string(), scalar_u64(&e["v"]))).collect()).unwrap_or_default();
+                let by = |nm: &str| -> Vec<Option<u64>> { fr["by_name"][nm]["Ok"].as_array().map(|a| a.iter().map(|e| scalar_u64(&e["v"])).collect()).unwrap_or_default() };
+                if k == 0 {
+                    // live closure locals: declared on an earlier body line
+                    let live: Vec<(&str, u64)> = [("x2", x2), ("y", yc), ("r", r)].into_iter().take(bi).collect();
+                    let pending = ["x2", "y", "r"][bi];
+                    for (nm, v) in &live {
+                        if !shown.iter().any(|(sn, sv)| sn == nm && *sv == Some(*v)) {
+                            findings.push(json!({"sig":"C19:locals:innermost-binding-missing-or-wrong:closure","detail":format!("{ctx}\nlive `{nm}` = {v}, locals shown: {shown:?}")}));
+                        }
+                        if by(nm).first().copied().flatten() != Some(*v) {
+                            findings.push(json!({"sig": format!("C19:var-name:{}:closure", if *nm == "y" { "name-resolves-to-a-binding-of-the-enclosing-function" } else { "wrong-value" }), "detail": format!("{ctx}\n`var {nm}` -> {:?}, the closure's own binding = {v}", by(nm))}));
+                        }
+                    }
+                    // nothing declared later in the body, nothing of the enclosing function that was not captured
+                    let later: Vec<&str> = ["x2", "y", "r"].into_iter().skip(bi + 1).collect();
+                    for (sn, sv) in &shown {
+                        if later.contains(&sn.as_str()) && sn != pending {
+                            findings.push(json!({"sig":"C19:locals:binding-of-closed-or-later-scope-shown:closure","detail":format!("{ctx}\nshown `{sn}` = {sv:?}, declared later in the closure body")}));
+                        }
+                        if sn == "z" || sn == "k" || sn == "acc" || (sn == "y" && *sv == Some(n * 1000 + 102)) {
+                            findings.push(json!({"sig":"C19:locals:binding-of-the-enclosing-function-shown-in-closure","detail":format!("{ctx}\nshown `{sn}` = {sv:?}: not captured, belongs to the frame above")}));
+                        }
+                    }
+                    for nm in ["z", "k"] {
+                        if !by(nm).is_empty() {
+                            findings.push(json!({"sig":"C19:var-name:out-of-scope-name-resolved:closure","detail":format!("{ctx}\n`var {nm}` -> {:?} inside the closure", by(nm))}));
+                        }
+                    }
+                    if !args.iter().any(|(an, av)| an == "p" && *av == Some(pv)) {
+                        findings.push(json!({"sig":"C19:args:wrong-activation:closure","detail":format!("{ctx}\n`arg all` -> {args:?}, the closure was called with p = {pv}")}));
+                    }
+                    if mv {
+                        // captured by value: rustc describes `x` inside the closure; it must read this activation's x
+                        let gx = by("x");
+                        let sx: Vec<Option<u64>> = shown.iter().filter(|(sn, _)| sn == "x").map(|(_, v)| *v).collect();
+                        for g in gx.iter().chain(sx.iter()) {
+                            if g.is_some() && *g != Some(xv) {
+                                findings.push(json!({"sig":"C19:closure:captured-variable-wrong-value","detail":format!("{ctx}\ncaptured `x` shown as {g:?}, this activation captured {xv}")}));
+                            }
+                        }
+                    }
+                } else {
+                    let an = n + (k as u64 - 1);
+                    let _ = (call_line, rec_line);
+                    for (nm, v) in [("x", an * 1000 + 101), ("y", an * 1000 + 102), ("z", an * 1000 + 103)] {
+                        if !shown.iter().any(|(sn, sv)| sn == nm && *sv == Some(v)) {
+                            findings.push(json!({"sig":"C19:locals:innermost-binding-missing-or-wrong:outer-frame:closure","detail":format!("{ctx}\nframe {k} is clos({an}): live `{nm}` = {v}, locals shown: {shown:?}")}));
+                        }
+                        if by(nm).first().copied().flatten() != Some(v) {
+                            findings.push(json!({"sig":"C19:var-name:wrong-value:outer-frame:closure","detail":format!("{ctx}\nframe {k} is clos({an}): `var {nm}` -> {:?}, expected {v}", by(nm))}));
+                        }
+                    }
+                    for (sn, sv) in &shown {
+                        if sn == "x2" || sn == "r" || sn == "p" {
+                            findings.push(json!({"sig":"C19:locals:closure-binding-shown-in-enclosing-frame","detail":format!("{ctx}\nframe {k} is clos({an}) and shows `{sn}` = {sv:?}")}));
+                        }
+                    }
+                    if !args.iter().any(|(a2, av)| a2 == "n" && *av == Some(an)) {
+                        findings.push(json!({"sig":"C19:args:wrong-activation:outer-frame:closure","detail":format!("{ctx}\nframe {k}: `arg all` -> {args:?}, this activation has n = {an}")}));
+                    }
+                }
+            }
+        }
+    }
+    Ok(json!({"findings": findings, "checks": checks, "stops": stops, "example": example}))
+}
+
 pub fn replay(v: &Value) -> i32 {
     let sk = skeletons(3, 1);
     let take = if v["tier"] == "thorough" { 120 } else { 10 };
